@@ -38,7 +38,7 @@ StoreOf(k) == CASE k = 1 -> <<TRUE, TRUE>> [] k = 2 -> <<TRUE, FALSE>> [] k = 3 
 
 Params == { p \in [segIM : SegIMs, tofIM : TofIMs, fs : FrameIds, st : StoreIds, nStore : NStores, fresh : Freshes, maxSeg : MaxSegs] :
               p.nStore > 0 => p.fs = 0 }
-ParamOf(p) == [c |-> C0(p.maxSeg), frames |-> FrameSet(p.fs), segIM |-> p.segIM, tofIM |-> p.tofIM,
+ParamOf(p) == [c |-> C0(p.maxSeg), frames |-> FrameSet(p.fs), segIM |-> IF p.segIM = 0 THEN -1 ELSE p.segIM, tofIM |-> IF p.tofIM = 0 THEN -1 ELSE p.tofIM,   \* 0 in the .cfg stands for -1 (all in memory)
                storeP |-> StoreOf(p.st)[1], storeD |-> StoreOf(p.st)[2], nStore |-> p.nStore, fresh |-> p.fresh]
 Streams == UNION { [1..n -> Symbols] : n \in 0..MaxLen }
 ResolveRec(c, rec) == IF IsTime(rec) THEN NoRes ELSE Resolve(c, BinOf(c, PairOf(rec)))
